@@ -54,6 +54,12 @@ func RunC20(t *Trace, st *Stats) *Violation {
 		env.SetDisk(sim.FromBytes(env.Path, preexisting))
 		env.FS.Creates = 0
 	}
+	// the context the writes are made with: a directly constructed writer does not look at it, so an
+	// already cancelled one must make no difference to the deferred writer either
+	c20ctx := bg
+	if t.Extra != nil && t.Extra["cancelled_ctx"] == true {
+		c20ctx = cancelledCtx()
+	}
 	var dw *deferred.DeferredCarWriter
 	switch {
 	case stream:
@@ -191,7 +197,7 @@ func RunC20(t *Trace, st *Stats) *Violation {
 					err = commit(cidlink.Link{Cid: b.Cid})
 					return
 				}
-				err = dw.Put(bg, b.Cid.KeyString(), b.Data)
+				err = dw.Put(c20ctx, b.Cid.KeyString(), b.Data)
 			}); pv != nil {
 				return viol("deferred/panic/put", "Put panicked: %v", pv)
 			}
@@ -244,7 +250,7 @@ func RunC20(t *Trace, st *Stats) *Violation {
 					panic(&InfraError{"direct writer: " + derr.Error()})
 				}
 			}
-			werr := direct.Put(bg, b.Cid.KeyString(), b.Data)
+			werr := direct.Put(c20ctx, b.Cid.KeyString(), b.Data)
 			if (err != nil) != (werr != nil) {
 				return viol("deferred/differs-from-direct/put", "op #%d Put(%s) returned %v, direct writer returned %v", i, b.Spec, err, werr)
 			}
@@ -333,6 +339,12 @@ func GenC20(seed uint64, run int) *Trace {
 		default:
 			t.Ops = append(t.Ops, Op{Kind: "close"})
 		}
+	}
+	if r.Chance(1, 8) {
+		if t.Extra == nil {
+			t.Extra = map[string]any{}
+		}
+		t.Extra["cancelled_ctx"] = true
 	}
 	if target == "path" && r.Chance(1, 5) {
 		if t.Extra == nil {
